@@ -43,6 +43,48 @@ func (e *eng) knownWitnesses() {
 		c.Known("fat-remove-leaks-chain", failed != "" && errClassStr(failed) == "enospc",
 			fmt.Sprintf("100 KiB create/remove cycles on a 1.44 MB FAT12 volume: %d cycles completed, then %q", cycles, failed))
 	}
+	// fat-rename-enospc-truncates-dir: Rename first cuts the parent directory's chain to one cluster
+	// and then re-grows it; on a full volume a rename to a longer name cannot re-grow, the call is
+	// refused and every entry beyond the directory's first cluster is gone
+	if v, err := mkVol(volCfg{Kind: 12, Size: 64 * kib}); err == nil {
+		before, after, renErr := -1, -1, ""
+		_ = safely(func() error {
+			if err := v.fs.Mkdir("/sub"); err != nil {
+				return err
+			}
+			for i := 0; i < 20; i++ {
+				f, err := v.fs.OpenFile(fmt.Sprintf("/sub/F%02d.TXT", i), os.O_CREATE|os.O_RDWR)
+				if err != nil {
+					return err
+				}
+				f.Close()
+			}
+			for i := 0; i < 400; i++ {
+				f, err := v.fs.OpenFile(fmt.Sprintf("/FILL%03d.BIN", i), os.O_CREATE|os.O_RDWR)
+				if err != nil {
+					break
+				}
+				_, err = f.Write(make([]byte, 512))
+				f.Close()
+				if err != nil {
+					break
+				}
+			}
+			if des, err := v.fs.ReadDir("sub"); err == nil {
+				before = len(des)
+			}
+			long := "this is a really long file name that needs many directory slots to be stored on a fat volume, more than a whole cluster of them if we keep going like this for a while and then some more words.txt"
+			if err := v.fs.Rename("/sub/F00.TXT", "/sub/"+long); err != nil {
+				renErr = err.Error()
+			}
+			if des, err := v.fs.ReadDir("sub"); err == nil {
+				after = len(des)
+			}
+			return nil
+		})
+		c.Known("fat-rename-enospc-truncates-dir", renErr != "" && before == 20 && after >= 0 && after < before,
+			fmt.Sprintf("full 64 KiB FAT12 volume, /sub with 20 entries (2 clusters): Rename to a 190-character name: error %q, entries %d -> %d", renErr, before, after))
+	}
 	// fat-read-past-eof (owner C10): 700-byte file, seek 600, 4 KiB buffer
 	if e.prop != "C08" {
 		if v, err := mkVol(volCfg{Kind: 12, Size: 4 * mib}); err == nil { // 1 KiB clusters
